@@ -571,8 +571,59 @@ def replay_batch(fname):
     return replay
 
 
+def unit_frames_maps(ctx):
+    """Feature maps of transform_data (the objects a model's FeatureList is made of): fill_feat_ / fill_deriv_ never write the caller's raw feature
+    array x (nor dfdy), for every registered class, every coincidence pattern of its index fields and every input (no domain restriction: in
+    particular below the 1e-10 density floor of the semilocal maps); evaluating twice gives the same result."""
+    from contracts import c12
+    it = ctx.interp
+    mod = it.load_module(c12.MOD)
+    for clsname in c12.class_names():
+        cls = mod.ns[clsname]
+        names, defaults = init_params(cls)
+        idx_names = [n for n in names if n in c12.INDEX_NAMES]
+        real_names = [n for n in names if n not in c12.INDEX_NAMES and n != "bounds"]
+        pvars = {n: tm.var("p_" + n) for n in real_names}
+        fq = ["%s:%s.fill_feat_" % (c12.MOD, clsname), "%s:%s.fill_deriv_" % (c12.MOD, clsname)]
+        for part in set_partitions(idx_names):
+            nblocks = max(part.values()) + 1 if part else 0
+            nraw = nblocks + 2
+            tag = "%s[%s]" % (clsname, ",".join("%s=%d" % (n, part[n]) for n in idx_names))
+            args = [part[n] if n in part else pvars[n] for n in names if n != "bounds"]
+            try:
+                obj = it.call(cls, args, {})
+            except (Unsupported, PyRaise) as e:
+                ctx.undecided("maps/%s constructed" % tag, str(e)[:160], fq)
+                continue
+            x0 = sym_array("x", (nraw, NS))
+            g0 = sym_array("g", (NS,))
+            it.hyps = []
+
+            def run_value():
+                y, x = sym_array("yold", (NS,)), x0.copy()
+                it.call_method(obj, "fill_feat_", [y, x])
+                y2 = sym_array("yold", (NS,))
+                it.call_method(obj, "fill_feat_", [y2, x])          # second evaluation on the same (possibly modified) array
+                return y, y2, x
+
+            def run_deriv():
+                d, g, x = sym_array("dold", (nraw, NS)), g0.copy(), x0.copy()
+                it.call_method(obj, "fill_deriv_", [d, g, x])
+                return g, x
+            try:
+                vps = [p for p in all_paths(it, run_value) if p[0] == "return"]
+                dps = [p for p in all_paths(it, run_deriv) if p[0] == "return"]
+            except Unsupported as e:
+                ctx.undecided("maps/%s executed" % tag, str(e)[:160], fq)
+                continue
+            ctx.holds("maps/%s: fill_feat_ leaves the caller's raw features unchanged" % tag, all(same_elements(p[1][2], x0) for p in vps) and len(vps) >= 1, "", fq[:1])
+            ctx.holds("maps/%s: fill_feat_ evaluated twice on the same array gives the same values" % tag,
+                      all(same_elements(np.asarray(p[1][0], dtype=object), np.asarray(p[1][1], dtype=object)) for p in vps), "", fq[:1])
+            ctx.holds("maps/%s: fill_deriv_ leaves the caller's raw features and dfdy unchanged" % tag, all(same_elements(p[1][1], x0) and same_elements(p[1][0], g0) for p in dps) and len(dps) >= 1, "", fq[1:])
+
+
 def units():
-    u = [("frames/settings", unit_frames_settings)]
+    u = [("frames/settings", unit_frames_settings), ("frames/maps", unit_frames_maps)]
     for version, level in (("ij", "MGGA"), ("i", "GGA"), ("j", "MGGA"), ("k", "MGGA")):
         u.append(("plan/%s/%s" % (version, level), unit_frames_plan(version, level)))
     for N in (1999, 2000, 2001, 4001):
